@@ -72,7 +72,8 @@ theorem decNat_primBytes (e : Endian) (p : Prim) (n : Nat) (h : primOk p n = tru
   case c8 =>
     simp only [primOk, Prim.size] at h
     simp at h
-    cases e <;> simp [primBytes, c8Bytes, h.2, decNat, leVal] <;> omega
+    have hm : n % 256 = n := Nat.mod_eq_of_lt (by omega)
+    cases e <;> simp [primBytes, c8Bytes, decNat, leVal, hm]
   all_goals exact decNat_encNat e _ n h'.1.1
 
 theorem dPrim_wPrim (ver : Ver) (e : Endian) (p : Prim) (n pos : Nat) (rest : Bytes) (h : primOk p n = true) :
